@@ -61,7 +61,40 @@ def generate(repo):
         raise TranslateError("toStringByIndex: sprintf formats of INT / DOUBLE not found")
     if re.search(r"strstr\s*\.\s*precision|setprecision", body):
         raise TranslateError("toStringByIndex: the stream precision of POINT / TENSOR is no longer the default")
-    writer = """
+    # ---- the column layout: header, free particles, frozen particles of the writer; fixed columns of the reader
+    wbody = ph[mw.end():]
+    depth, k = 1, 0
+    while depth and k < len(wbody):
+        depth += {"{": 1, "}": -1}.get(wbody[k], 0)
+        k += 1
+    wbody = " ".join(wbody[:k].split())
+    secs = []
+    # header: one line per colour with the names of the persistent attributes
+    mh = re.search(r"for \(size_t (\w+) = 0; \1 < Particle::s_tag_format\[c\]\.rows\(\); \1\+\+\) \{ DataFormat::attribute_t attr = Particle::s_tag_format\[c\]\.attrByIndex\(\1\); if \((.*?)\) pos << attr\.name << \" \"; \}", wbody)
+    secs.append(("header", bool(mh), bool(mh) and mh.group(2).strip() == "attr.persistent", "names"))
+    for kind, macro in (("free", "FOR_EACH_FREE_PARTICLE"), ("frozen", "FOR_EACH_FROZEN_PARTICLE_ALL_C")):
+        ms = re.search(re.escape(macro) + r" \( ?this, pos << m_manager->species\(__iSLFE->c\) << \" \" << \"(\w+)\" << \" \" << (.*?); for \(size_t (\w+) = 0; \3 < Particle::s_tag_format\[c\]\.rows\(\); \3\+\+\) \{ if \((.*?)\) pos << \" \" << __iSLFE->tag\.toStringByIndex\(\3\); \} pos << endl; \);", wbody)
+        if not ms:
+            secs.append((kind, False, False, "?"))
+            continue
+        cols = re.findall(r"__iSLFE->([rv])\.([xyz])", ms.group(2))
+        filt = ms.group(4).strip() == "Particle::s_tag_format[c].attrByIndex(%s).persistent" % ms.group(3)
+        secs.append((kind, ms.group(1) == kind, filt, " ".join("%s.%s" % c for c in cols)))
+    rp = re.search(r"void\s+ParticleCreatorFile::readParticle\s*\([^)]*\)\s*\{", src)
+    rcols = "?"
+    if rp:
+        rb = " ".join(src[rp.end():rp.end() + 1200].split())
+        m1 = re.search(r"if \(freeOrFrozen == \"free\" \|\| freeOrFrozen == \"frozen\"\) \{ pos >> skipws >> (.*?); \}", rb)
+        if m1:
+            rcols = " ".join("%s.%s" % c for c in re.findall(r"p\.([rv])\.([xyz])", m1.group(1)))
+    layout = """
+/-- the three sections of `Phase::writeRestartFile`: `(section, the loop runs over ALL rows of the species' format (and the word written
+after the species name is the section's), the filter is exactly `persistent`, fixed columns in the order written)` -/
+def writerSections : List (String × Bool × Bool × String) := [%s]
+/-- fixed columns in the order `ParticleCreatorFile::readParticle` extracts them after the species and free / frozen words -/
+def readerColumns : String := "%s"
+""" % (", ".join('("%s", %s, %s, "%s")' % (a, "true" if b else "false", "true" if c else "false", d) for a, b, c, d in secs), rcols)
+    writer = layout + """
 /-- `pos.precision(%s)` in `Phase::writeRestartFile` (positions and velocities) -/
 def writerPrecision : Nat := %s
 /-- `sprintf` formats of `Data::toStringByIndex` for INT and DOUBLE; POINT / TENSOR go through a string stream of default precision (6) -/
